@@ -324,7 +324,7 @@ func checkC14(r *vstat.Run, c *C14Case, build func() (string, error)) (msg, sig 
 		return "", ""
 	}
 	if i := strings.Index(text, "VERIF-STRING-CHANGED"); i >= 0 {
-		return "Parser.String() of the grammar's parser changed after ParserForProduction was called for an inner production:\n" + text + "\n\ngrammar:\n" + c.G.String(), "string-changed"
+		return "Parser.String() of the grammar's parser changed after ParserForProduction was called for an inner production, or after the parser reported parse errors:\n" + text + "\n\ngrammar:\n" + c.G.String(), "string-changed"
 	}
 	nt1, nt2 := false, false
 	for _, p := range c.G.Prods {
